@@ -57,6 +57,10 @@ def specs(quick):
             add(f"MM1-{tag}/H3/L", wl, S.H3(size=sized(wl, 0.75), rsize=sized(wl, 0.25)), "EL")
     add("MV1-62/H2-tight/EL", S.MV1(6, 2), S.H2(size=48, main_thr=8), "EL")
     add("EW1-43/H2/E", S.EW1(4, 3), S.H2(size=64), "E")
+    # compute-bound with a throughput that does not divide the operation count (exact rationals
+    # such as 16/3 appear in the latency formula)
+    add("MM1-422/H2-macthr3/EL", S.MM1(4, 2, 2), S.H2(size=96, mac_thr=3), "EL")
+    add("MV1-62/H2-macthr7/L", S.MV1(6, 2), S.H2(size=48, mac_thr=7), "L")
     add("CONV1-43/H2/EL", conv1(4, 3), S.H2(size=48, main_thr=8), "EL")
     if not quick:
         add("CONV1-64/H2/E", conv1(6, 4), S.H2(size=64), "E")
